@@ -15,6 +15,7 @@ EXPLANATION = (
     "[ENC-PRODUCER] inventory of what reaches each mask: range-checked (encode_number, encode_float) versus unchecked producers. "
     "ENC-RANGE / SIGN-AGREE / ENC-NA are read off the encode_number residual evaluated as an exact piecewise-affine function of round(value/resolution) over all integers (piece.py); ENC-MISSING and the encoder lookup are decided by interpreting get_field_by_id and _call_encode_function. UNDECIDED: the numeric 'within half a resolution step' for accepted values."
     ' ENC-MISSING is decided on histories as well: the same message asked again after one field was replaced, after a new field list was assigned, after an append (a lookup cache that is not refreshed fails). SENT-AGREE / SIGN-AGREE (C02) are included: an absent value must be written as the pattern the decoder reads as absent.'
+    ' Fifth round: [ENC-STATE] every use of self.<attr> in the encoder is classified (read / write / not visible): bound in __init__ and only read is configuration, written and read after construction is state between messages (violation), anything else is undecided. When the encode_number residual is not of the piecewise form it is decided on points (tick counts around every boundary, None): ENC-RANGE / SENT-AGREE / SIGN-AGREE then rest on sampled points. An encode_time call site that was not read and a payload assembled by a loop the guard extractor only approximates give no verdict.'
 )
 ASSUMPTIONS = ["CPython ast parser", "canboat.json is the oracle", "sym.py partial evaluation",
                "struct.pack('<f') raises on values outside the 32-bit float range (documented)"]
@@ -101,6 +102,11 @@ def enc_missing(chk, program):
                     ok = all(('cmp', 'is', v, NONE) in sym.conj(r[1]) for r in raises[:1]) and H._exc_name(raises[0][2]) == 'ValueError'
                 else:
                     detail = 'selection predicate is not `f.id == id`: ' + show(cond)
+    if not ok and not detail:
+        # neither interpretable nor of the one spelling this reading knows: no verdict
+        chk.unknown('ENC-MISSING', 'get_field_by_id', 'not interpretable, and not of the shape `next((f for f in self.fields if f.id == id), None)` followed by a raise: '
+                    + '; '.join(f"{e[0]} {show(e[2])[:60]}" for e in ex.events if e[0] in ('return', 'raise'))[:200], 'nmea2000/message.py', fn.lineno)
+        return
     chk.check(ok, 'ENC-MISSING', 'NMEA2000Message.get_field_by_id', file='nmea2000/message.py', line=fn.lineno, func='get_field_by_id',
               expected='first field with f.id == id, else raise ValueError (no path returns None / a default)',
               found=[f"{e[0]} {show(e[2])[:100]} when {[show(x)[:80] for x in e[1]]}" for e in ex.events if e[0] in ('return', 'raise')], detail=detail)
